@@ -123,8 +123,8 @@ class Watch(object):
                                 site=site, kind="argument_mutated", before=v0, after=v)
 
 
-def call(fn, site, e0, e1, a, d, *pm):
-    out = fn(e0, e1, a, d, *pm)
+def call(fn, site, e0, e1, a, d, *pm, **kw):
+    out = fn(e0, e1, a, d, *pm, **kw)
     if not (isinstance(out, tuple) and len(out) == 2 and isinstance(out[0], Angle)
             and isinstance(out[1], Angle)):
         raise Violation("%s returned %r, not a pair of Angles" % (site, out), site=site, kind="type")
@@ -353,9 +353,19 @@ def make_pm(which):
             args = (pma, pmd)
         elif form == "angle":
             args = (w.angle(pma), w.angle(pmd))
+        elif form == "only_first":
+            # the second component is left to its documented default (no motion in it)
+            args = (w.angle(pma),)
+            pmd = 0.0
+        elif form == "only_second":
+            args = ()
+            pma = 0.0
         else:
             args = (w.angle(pma), pmd)
-        x, y = call(fn, site, e0, e1, a, d, *args)
+        kw = {}
+        if form == "only_second":
+            kw = {("p_motion_lat" if which == "ecl" else "p_motion_dec"): w.angle(pmd)}
+        x, y = call(fn, site, e0, e1, a, d, *args, **kw)
         T = (jde_of(case["y1"]) - jde_of(case["y0"])) / yd
         ra2 = case["ra"] + pma * T
         dec2 = case["dec"] + pmd * T
@@ -624,7 +634,7 @@ def pm_cases(which):
         return {"ra": p[0], "dec": p[1], "y0": yy[0], "y1": yy[1], "pm_ra": pma, "pm_dec": pmd,
                 "form": form}
     return st.builds(build, directions(), yp, pm_values(), pm_values(),
-                     st.sampled_from(["float", "angle", "mixed"]))
+                     st.sampled_from(["float", "angle", "mixed", "only_first", "only_second"]))
 
 
 def pm_space_cases():
